@@ -17,6 +17,7 @@ traced limit` gives a non-negative self weight).  Low-fidelity regions: the same
 (Gen/C04Ur.lean, low-flow approximation on/off, adiabatic six-node).  The no-flow / duct-average
 gap models are decided by the probing oracle.
 """
+import copy
 import random
 from fractions import Fraction
 
@@ -408,6 +409,13 @@ def generate(ctx):
     return defs
 
 
+def dassh_utils_tout(r, inp):
+    """the core outlet temperature estimate Reactor._setup_core hands to the gap's limit function"""
+    import dassh
+    mat = r.materials[inp.data['Core']['coolant_material'].lower()]
+    return dassh.utils.Q_equals_mCdT(r.total_power, r.inlet_temp, mat, mfr=r.flow_rate)
+
+
 def oracle_reactor_step(ctx, rng, n):
     """the step the Reactor selects for a whole core vs the limits of its assemblies recomputed here with the real limit
     functions, assembly by assembly (flow-rate, outlet-temperature and temperature-rise boundary conditions, clones of one type
@@ -418,7 +426,7 @@ def oracle_reactor_step(ctx, rng, n):
     for ci in range(n):
         pos = [(1, 1)] + [p for p in gi.core_positions(2)[1:] if rng.random() < 0.6]
         case = gi.random_case(rng, positions=pos, n_types=rng.choice([1, 1, 2]), gap_model=rng.choice(['none', 'no_flow', 'flow']),
-                              length=0.1, flow_range=(0.05, 4.0))
+                              length=0.1, flow_range=(0.05, 4.0) if ci % 3 == 0 else (0.15, 1.5))
         bc = rng.choice(['flowrate', 'outlet_temp', 'delta_temp'])
         if bc != 'flowrate':
             val = round(rng.uniform(80, 160), 2)
@@ -439,12 +447,38 @@ def oracle_reactor_step(ctx, rng, n):
             ctx.count("reactor_step_limit_not_evaluable")
             shutil.rmtree(d, ignore_errors=True)
             continue
+        # the inter-assembly gap has a limit of its own (flowing-gap model), recomputed with the real limit function
+        try:
+            import dassh.core as DC
+            t_out_core = float(dassh_utils_tout(r, inp))
+            gdz = DC.calculate_min_dz(r.core, r.inlet_temp, t_out_core)[0]
+            if gdz is not None:
+                lims.append(float(gdz))
+        except Exception:
+            ctx.count("reactor_step_gap_limit_not_evaluable")
         ctx.count("reactor_step_checked:" + bc)
-        if float(np.max(r.dz)) > min(lims) * (1 + 1e-9) + 1e-12:
+        # a second mesh of the same core with requested planes a fraction of a per cent past a whole number of steps: the march
+        # must not stretch a step to meet them
+        worst_dz = float(np.max(r.dz))
+        if True:
+            c2 = copy.deepcopy(case)
+            dz0 = float(r.req_dz)
+            L_ = case['core']['length']
+            planes = [round(z0 + (k_ + f_) * dz0, 12) for z0, k_, f_ in ((0.0, 7, 0.004), (0.3 * L_, 5, 0.0095), (0.6 * L_, 3, 0.0005))]
+            c2['setup']['axial_plane'] = [z_ for z_ in planes if 0 < z_ < L_]
+            try:
+                inp2, r2 = gi.build_reactor(c2, d)
+                if abs(float(r2.req_dz) - dz0) <= 1e-12 * dz0:
+                    worst_dz = max(worst_dz, float(np.max(r2.dz)))
+                    ctx.count("reactor_step_with_near_planes")
+            except SystemExit:
+                pass
+        if worst_dz > min(lims) * (1 + 1e-9) + 1e-12:
             k = int(np.argmin(lims))
             ctx.violation("c04-reactor-step:" + bc, "the step selected for the core (%.6g m) exceeds the limit %.6g m of assembly %d "
                           "(flow %.4g kg/s) recomputed with the real limit function; its explicit update has a negative self weight"
-                          % (float(np.max(r.dz)), lims[k], k, float(r.assemblies[k].flow_rate)), case=case, limits=lims)
+                          % (worst_dz, lims[k], k, float(r.assemblies[k].flow_rate) if k < len(r.assemblies) else float('nan')),
+                          case=case, limits=lims)
         shutil.rmtree(d, ignore_errors=True)
 
 
